@@ -873,6 +873,8 @@ pub struct Net {
     /// connects to these keys are refused this many more times
     pub refuse: BTreeMap<String, u32>,
     pub fail_remove_file: u32,
+    /// the error kind an injected unlink failure carries (a vanished file, a refused or failed call)
+    pub fail_remove_kind: io::ErrorKind,
     pub fail_nodelay: u32,
     pub unlink_calls: u64,
 }
@@ -889,6 +891,7 @@ impl Net {
             profile: NetProfile::default(),
             refuse: BTreeMap::new(),
             fail_remove_file: 0,
+            fail_remove_kind: io::ErrorKind::PermissionDenied,
             fail_nodelay: 0,
             unlink_calls: 0,
         }
@@ -1294,9 +1297,10 @@ pub async fn remove_file(p: &Path) -> io::Result<()> {
     net.unlink_calls += 1;
     if net.fail_remove_file > 0 {
         net.fail_remove_file -= 1;
+        let kind = net.fail_remove_kind;
         drop(net);
         count("fault_unlink_error");
-        return Err(io::Error::new(io::ErrorKind::PermissionDenied, "sim: unlink failed"));
+        return Err(io::Error::new(kind, "sim: unlink failed"));
     }
     if net.files.remove(p).is_some() {
         Ok(())
